@@ -75,7 +75,9 @@ def run(ctx):
                 desc = dict(forest=f, op='heal', params=p, backend=be)
                 marg = None if mask is None else (np.array(mask) if rng.random() < 0.5 else np.isin(x.nodes.node_id.values, mask))
                 types = dict(zip((int(i) for i in x.nodes.node_id.values), x.nodes.type.values))
-                st, res = guarded(navis.heal_skeleton, x, method=method, max_dist=max_dist, min_size=min_size, mask=marg, drop_disc=drop, inplace=bool(rng.integers(2)))
+                spell = method if rng.random() < 0.6 else str(rng.choice([method.lower(), method.capitalize()]))     # accepted case-insensitively
+                desc['params']['method_spelling'] = spell
+                st, res = guarded(navis.heal_skeleton, x, method=spell, max_dist=max_dist, min_size=min_size, mask=marg, drop_disc=drop, inplace=bool(rng.integers(2)))
                 # candidate edges between fragments over the allowed nodes (brute force)
                 allowed = {}
                 for r, ns in cc.items():
